@@ -81,8 +81,17 @@ func applyPatch(doc document.Document, p patch.Patch) (document.Document, error)
 	return nil, fmt.Errorf("action '%s' is not supported", action)
 }
 
-func applyJSON(doc document.Document, entry interface{}) (document.Document, error) {
+func applyJSON(doc document.Document, entry interface{}) (result document.Document, err error) {
 	logger.Debug("Applying JSON patch", logfields.WithPatch(entry))
+
+	// The JSON patch library panics on some operations that pass decoding (e.g. a negative array index,
+	// a 'test' operation without value, a path through a null member): turn that into an error.
+	defer func() {
+		if r := recover(); r != nil {
+			result = nil
+			err = fmt.Errorf("failed to apply JSON patch: %v", r)
+		}
+	}()
 
 	bytes, err := json.Marshal(entry)
 	if err != nil {
